@@ -17,6 +17,12 @@ def simulate(ctx, main, *, max_steps=400_000, max_time=None, epoch=1_700_000_000
     asyncio.set_event_loop(loop)
     outcome = 'done'
     result = None
+    # no cyclic garbage collection while the simulation runs: WHEN the collector finds a dropped coroutine (and runs
+    # its finally blocks) depends on the allocation history of the process, not on the seed.  Everything is collected
+    # in _finalize_leftovers, with the run's log and choices frozen.
+    import gc
+    gc_was_enabled = gc.isenabled()
+    gc.disable()
     try:
         try:
             result = loop.run_until_complete(main(loop))
@@ -28,6 +34,8 @@ def simulate(ctx, main, *, max_steps=400_000, max_time=None, epoch=1_700_000_000
         ctx.sim_time = loop.time() - start
         ctx.steps = loop.steps
         _finalize_leftovers(ctx, loop)
+        if gc_was_enabled:
+            gc.enable()
         clock.uninstall()
         loop._ready.clear()
         loop._scheduled.clear()
@@ -69,6 +77,16 @@ def _finalize_leftovers(ctx, loop):
             break
         more.sort(key=lambda t: getattr(t, '_sim_id', 0))
         tasks = more
+    # tasks that were never in asyncio's weak task set any more (dropped futures) are closed too
+    for t in sorted(getattr(loop, 'created_tasks', []), key=lambda t: getattr(t, '_sim_id', 0)):
+        if not t.done():
+            t._log_destroy_pending = False
+            try:
+                t.get_coro().close()
+            except BaseException:  # pylint: disable=broad-except
+                pass
+    if hasattr(loop, 'created_tasks'):
+        loop.created_tasks.clear()
     loop._ready.clear()
     loop._scheduled.clear()
     loop.graveyard.clear()
